@@ -1,4 +1,5 @@
 import RemocModel.Link.Inv
+import RemocModel.Props.C02
 set_option linter.unusedSimpArgs false
 
 /-!
